@@ -92,6 +92,8 @@ def finish(cx, t0, seed=0):
     if _os.environ.get("VCHECK_VERBOSE"):
         for o in cx.obs:
             print("   %s [%s] %s%s" % ("ok  " if o.ok else "FAIL", o.key, o.desc[:200], (" @" + o.loc) if o.loc else ""))
+    for q_, hs in (cx.meta.get("inlined_helpers") or {}).items():
+        print("   NOTE new helper(s) %s inlined into %s" % (sorted(set(h.split("::")[-1] for h in hs)), q_.split("::")[-1]))
     for n in cx.notes:
         print("   NOTE " + n)
     rc = 0
@@ -164,6 +166,7 @@ def write_evidence(cx, t0, seed, nviol, nknown):
             "functions_analysed": len(cx.m.fns),
             "tree_hash": cx.meta["tree_hash"],
             "facts_fresh": cx.meta["facts_fresh"],
+            "inlined_helpers": cx.meta.get("inlined_helpers") or {},
             "known_findings_reported": nknown,
             "undecided": cx.undecided,
             "trusted_base": ["rustc nightly MIR (mir-opt-level=0) is a faithful image of the program",
